@@ -152,8 +152,17 @@ def custom_objective_faulty(trial):
 # ---------------------------------------------------------------------------
 # generation
 
-# "sim-labels-agglom" is excluded: build_agglom can loop forever when the partitioner returns a single group (observation O3)
-METHOD_POOL = ["sim-greedy", "sim-random-greedy", "sim-labels", "sim-kahypar", "sim-random"]
+METHOD_POOL = ["sim-greedy", "sim-random-greedy", "sim-labels", "sim-kahypar", "sim-random", "sim-labels-agglom"]
+# bounded liveness: a search must return within this much CPU time of the worker (normal searches take milliseconds)
+SEARCH_CPU_LIMIT = 25.0
+
+
+class _SearchDidNotReturn(BaseException):
+    pass
+
+
+def _on_vtalrm(signum, frame):
+    raise _SearchDidNotReturn()
 OBJECTIVES = ["flops", "size", "write", "combo", "combo-32", "limit", "limit-8", "custom", "custom-faulty"]
 
 
@@ -248,6 +257,9 @@ def gen_case(prop, seed, tier):
         "searches": sw.choice([1, 1, 2]),
         "compressed": compressed,
     }
+    if case["pool"] is not None and case["pool"]["mode"] == "thread-preemptive":
+        # a trial that never returns cannot be cut inside a simulated thread (the CPU-time watchdog lives in the main thread)
+        case["methods"] = [m for m in case["methods"] if m != "sim-labels-agglom"] or ["sim-greedy"]
     if case["on_trial_error"] == "raise":
         # 'raise' re-raises ordinary trial errors by design; BadTrial must still only discard the trial.
         # So the only faults injected under 'raise' are BadTrial ones (and none in the objective).
@@ -395,7 +407,19 @@ def _run_once(ctg, case, use_pool, use_faults, log, counters, faults, with_clock
             with warnings.catch_warnings(record=True) as wlist:
                 warnings.simplefilter("always")
                 try:
-                    res["tree"] = opt.search(inputs, output, size_dict)
+                    if sched is None:
+                        import signal
+
+                        signal.signal(signal.SIGVTALRM, _on_vtalrm)
+                        signal.setitimer(signal.ITIMER_VIRTUAL, SEARCH_CPU_LIMIT)
+                    try:
+                        res["tree"] = opt.search(inputs, output, size_dict)
+                    finally:
+                        if sched is None:
+                            signal.setitimer(signal.ITIMER_VIRTUAL, 0)
+                except _SearchDidNotReturn:
+                    res["raised"] = TimeoutError(f"search did not return within {SEARCH_CPU_LIMIT} s of CPU time")
+                    res["hung"] = True
                 except Exception as e:
                     res["raised"] = e
                 res["warn"] = [str(w.message)[:200] for w in wlist if "Trial error" in str(w.message)]
@@ -469,7 +493,10 @@ def run_case(prop, case):
         if res["raised"] is not None:
             e = res["raised"]
             no_tree = isinstance(e, KeyError) and e.args == ("tree",)
-            if not no_tree and case["on_trial_error"] == "raise" and not type(e).__name__ == "BadTrial":
+            if res.get("hung"):
+                V("search-did-not-return", f"search #{si}: {e} (methods {case['methods']}, {len(inputs)} tensors); trials executed so far={executed}",
+                  methods=sorted(case["methods"]))
+            elif not no_tree and case["on_trial_error"] == "raise" and not type(e).__name__ == "BadTrial":
                 # by design 'raise' re-raises a trial's own error: judged against the fault-free serial run below
                 pending_raise.append((si, e))
             elif not no_tree:
